@@ -182,25 +182,57 @@ def has_dup_args(fields):
     return len(set(m)) != len(m)
 
 
+TYPE_OF = {"h": "H", "z": "Z"}
+
+
+def type_of_cmd(name):
+    name = name.lower()
+    if name.startswith("h"):
+        return "H"
+    if name in ("sadd", "srem", "spop", "sclear", "sexpire", "spersist"):
+        return "S"
+    if name.startswith("z"):
+        return "Z"
+    if name.startswith("l") or name in ("rpush", "rpop"):
+        return "L"
+    return "K"
+
+
+def key_valid(key):
+    """table:key with non-empty table and key (anything else is rejected by every command)"""
+    i = key.find(b":")
+    return i > 0 and len(key) > i + 1
+
+
+def norm_zero(o):
+    """-0 and +0 are the same score"""
+    return o.replace("f8000000000000000", "f0000000000000000")
+
+
 def c09_oracle(order, cases, impl):
     """Direct oracle over a whole run. Returns (failures, histogram, checked, nontrivial set)."""
     fails = []
     hist = {}
     checked = 0
     nontrivial = set()
-    seq_writes = {}   # seq -> list of ids of W lines so far
+    last_write = {}   # (seq, type, key) -> case id of the last write
+    dup_cmds = {}     # (seq, type, key) -> set of command names that carried a repeated argument
     for cid in order:
         c = cases[cid]
         seq = cid.split(".")[0]
         kind = c[0]
         if kind == "S":
-            seq_writes[seq] = []
             continue
         if kind == "W":
-            seq_writes.setdefault(seq, []).append(cid)
             a = args_of(c[4])
             nm = a[0].decode("latin1").lower() if a else "?"
             hist[nm] = hist.get(nm, 0) + 1
+            keys = a[1:] if nm == "del" else a[1:2]
+            for k in keys:
+                tk = (seq, type_of_cmd(nm), k)
+                last_write[tk] = cid
+                if has_dup_args(c):
+                    dup_cmds.setdefault(tk, set()).add(nm.upper())
             if has_dup_args(c):
                 hist["(dup-arg)"] = hist.get("(dup-arg)", 0) + 1
             if c[1] != "0":
@@ -216,26 +248,30 @@ def c09_oracle(order, cases, impl):
             continue
         obs = []
         if kind == "O":
-            obs.append((c[2], out))
+            obs.append((unh(c[2]), out))
         else:
             for part in out.split(" || "):
                 if not part:
                     continue
                 i = part.find(":")
-                obs.append((part[:i], part[i + 1:]))
+                obs.append((unh(part[:i]), part[i + 1:]))
         for key, o in obs:
+            if not key_valid(key):
+                continue
             checked += 1
             if " len=:0 " not in o and " card=:0 " not in o:
-                nontrivial.add(vlib.case_hash(seq + "/" + cid + "/" + key + o))
-            bad = c09_check_obs(o)
+                nontrivial.add(vlib.case_hash(seq + "/" + cid + "/" + repr(key) + o))
+            bad = c09_check_obs(norm_zero(o))
             if bad:
-                ws = seq_writes.get(seq, [])
-                last = cases[ws[-1]] if ws else None
+                tk = (seq, o[:1], key)
+                lw = last_write.get(tk)
+                last = cases[lw] if lw else None
                 lastname = args_of(last[4])[0].decode("latin1").upper() if last else "?"
-                # signature: the last write before the observation and whether any write so far repeated an argument
-                anydup = any(has_dup_args(cases[w]) for w in ws)
-                sig = "%s after a write with a repeated argument" % o[:1] if anydup else "%s %s" % (o[:1], lastname)
-                fails.append(dict(name="c09-" + cid, cid=cid, key=key, what="; ".join(bad[:4]),
+                if dup_cmds.get(tk):
+                    sig = "%s repeated argument in one %s" % (o[:1], "/".join(sorted(dup_cmds[tk])))
+                else:
+                    sig = "%s %s" % (o[:1], lastname)
+                fails.append(dict(name="c09-" + cid, cid=cid, key=repr(key), what="; ".join(bad[:4]),
                                   last_write=cmd_text(last) if last else None, signature=sig, obs=o[:600]))
                 break
     return fails, hist, checked, nontrivial
